@@ -588,7 +588,7 @@ fn lex_line(
 									first_error_token.get_or_insert(warning);
 								}
 							}
-							Some((_, 'u')) =>
+							Some((_, 'u')) if opening_quote == '"' =>
 							{
 								let literal = if let Some((_, '{')) =
 									iter.peek()
